@@ -144,19 +144,22 @@ def run_term(task: dict) -> dict:
         except (symx.Unsupported, symx.Inconclusive) as e:
             res["inconclusive"].append((describe(t), str(e)))
             continue
-        lengths = (0, 1, 2)
-        for n in lengths:
-            key = f"{describe(t)}|n{n}"
+        # case-insensitive literals: the definition is stated for ASCII input; on the whole code space
+        # (second pass, "u") only "all four modes agree" is claimed
+        spec_ok = not _ci_nonascii(t)  # a case-insensitive non-ASCII literal has no stated definition: modes-equal only
+        passes = [(n, ascii_only, spec_ok) for n in (0, 1, 2)] + ([(n, False, False) for n in (1, 2)] if ascii_only else [])
+        for n, ascii_pass, with_spec in passes:
+            key = f"{describe(t)}|n{n}" + ("" if ascii_pass or not ascii_only else "u")
             eng = Engine()
             holder = {}
 
-            def fn(e, n=n, t=t):
-                text = SymStr.fresh(e, n, hi=0x7F if ascii_only else symx.MAXCP) if n else ""
+            def fn(e, n=n, t=t, ascii_pass=ascii_pass, with_spec=with_spec):
+                text = SymStr.fresh(e, n, hi=0x7F if ascii_pass else symx.MAXCP) if n else ""
                 holder["text"] = text
                 r = {m: pestenv.run_parse(p, "r", text) for m, p in modes.parsers.items()}
                 for m, err in modes.errors.items():
                     r[m] = ("BUILD-EXC", err)
-                return r, judge(t, r, expected(t, text))
+                return r, judge(t, r, expected(t, text) if with_spec else None)
 
             try:
                 for pr in eng.explore(fn, max_paths=5000):
@@ -198,8 +201,7 @@ def run_term(task: dict) -> dict:
     # stub validation: every pattern the modes compiled, against the real engine
     for pat, flags in sorted(rxstub.STATS["patterns"]):
         try:
-            ci = bool(flags & int(rxstub._IGNORE)) or "(?i" in pat
-            rxstub.validate(pat, flags, ascii_only=ci)
+            rxstub.validate(pat, flags, ascii_only=False)
         except AssertionError as e:
             res["harness_errors"].append(f"regex stub validation: {e}")
         except symx.Unsupported as e:
@@ -214,6 +216,10 @@ def _tup(x):
     return x
 
 
+def _ci_nonascii(t):
+    return (t[0] == "ci" and t[1] > 0x7F) or (t[0] == "choice" and any(_ci_nonascii(x) for x in t[1]))
+
+
 def _has_ci(t):
     return t[0] == "ci" or (t[0] == "choice" and any(_has_ci(x) for x in t[1]))
 
@@ -225,7 +231,8 @@ def _replay_term(spec):
     r = {m: pestenv.run_parse(p, "r", spec["text"]) for m, p in modes.parsers.items()}
     for m, err in modes.errors.items():
         r[m] = ("BUILD-EXC", err)
-    return judge(t, r, expected(t, spec["text"]))
+    with_spec = (not _has_ci(t) or spec["text"].isascii()) and not _ci_nonascii(t)
+    return judge(t, r, expected(t, spec["text"]) if with_spec else None)
 
 
 replay_ext.HANDLERS["c12_term"] = _replay_term
@@ -497,6 +504,8 @@ def terminals(tier: str, seed: int):
     letters = [ord(c) for c in "abcdefghijklmnopqrstuvwxyzABCDEFGHIJKLMNOPQRSTUVWXYZ"]
     for c in letters if tier == "thorough" else letters[::5] + [ord("k"), ord("K"), ord("s"), ord("S"), ord("i"), ord("I")]:
         ts.append(("ci", c))
+    for c in (0xDF, 0xE9, 0x3A3, 0x212A, 0x130, 0x1E9E):  # sharp s, e acute, sigma (three case variants), Kelvin sign, dotted I
+        ts.append(("ci", c))
     R = lambda a, b: ("range", ord(a), ord(b))  # noqa: E731
     L = lambda a: ("lit", ord(a))  # noqa: E731
     mixes = [
@@ -504,6 +513,7 @@ def terminals(tier: str, seed: int):
         [R("a", "c"), L("d")], [L("d"), R("a", "c")], [L("a"), L("b"), L("c")], [L("]"), L("a")], [L("-"), L("a")],
         [L("^"), L("a")], [L("\\"), L("a")], [L("a"), L("-"), L("z")], [R("[", "]"), L("^")], [R("+", "-"), L("]")],
         [R("\\", "^"), L("-")], [L("["), L("]")], [R("0", "9"), L("_"), R("a", "f")], [R("\x00", "\x1f"), L("\x7f")],
+        [("ci", 0xDF), R("a", "z")], [("ci", ord("s")), L("x")], [L("x"), ("ci", ord("i")), ("ci", ord("k"))], [("ci", 0x212A), L("x")], [("ci", 0xE9), L("x")], [("ci", 0x3A3), R("0", "9")],
         [("ci", ord("a")), L("b")], [("ci", ord("k")), R("0", "9")], [L("a"), ("ci", ord("A"))], [("ci", ord("z")), ("ci", ord("y"))],
         [R("a", "c"), R("à", "å")], [L("K"), L("k")], [R("퟾", "퟿"), R("", "")],
         [R("￿", "\U00010000"), L("\U0010ffff")], [L(" "), L("\t"), L("\n"), L("\r")], [R("z", "z"), R("a", "a")],
